@@ -17,6 +17,9 @@ cursor (`dataPageIndex`, `messageOffset`) and `indexPageIndex`.
   alloc   (queue.alloc, under rwMutex)       cursor arithmetic, page roll-over
   write   (MappedPage.WriteBytes, UNLOCKED)  copy of the message into the data page
   persist (persistMetaOfMessage, under rwMutex) 3 index stores, 1 meta store, publish
+`allocF`/`putF` add the error branch of alloc (the roll-over's AcquirePage fails: the Put
+returns the error and nothing was assigned). `queue.GC` holds no lock across its steps, so in
+the interleaving model it is four events (gcSnap, gcRead, gcTruncData, gcTruncIndex).
 Two semantics are built from these: sequential histories (`Op`, `step`, with a crash after
 any prefix of the store trace of an in-flight Put) and an interleaving model (`Ev`,
 `cstep`) over appender threads, parameterised by `Shape` — whether Put is one critical
